@@ -560,7 +560,8 @@ class Type2Tag(Tag):
                     # and we must make sure there's no retries attempted
                     self.transceive(sector_select_2, timeout=0.001, retries=0)
                 except Type2TagCommandError as error:
-                    assert int(error) == TIMEOUT_ERROR  # passive ack
+                    if int(error) != TIMEOUT_ERROR:  # passive ack
+                        raise
                 else:
                     log.debug("sector {0} does not exist".format(sector))
                     raise Type2TagCommandError(INVALID_SECTOR_ERROR)
